@@ -36,11 +36,15 @@ def ty_vy(t):
         return t[1]
     if k == "map":
         return f"HashMap[{ty_vy(t[1])}, {ty_vy(t[2])}]"
+    if k == "bytes":
+        return f"Bytes[{t[1]}]"
     raise ValueError(t)
 
 
 def ty_abi(t):
     k = t[0]
+    if k == "bytes":
+        return "bytes"
     if k in ("int", "bool"):
         return ty_vy(t)
     if k == "addr":
@@ -70,6 +74,8 @@ def ty_coq(t):
         return "(TStruct [" + "; ".join(ty_coq(ft) for _, ft in t[2]) + "])"
     if k == "map":
         return f"(TMap {ty_coq(t[1])} {ty_coq(t[2])})"
+    if k == "bytes":
+        return f"(TBytes {t[1]})"
     raise ValueError(t)
 
 
@@ -87,11 +93,15 @@ def zero_val(t):
         return [zero_val(ft) for _, ft in t[2]]
     if k == "map":
         return {}
+    if k == "bytes":
+        return b""
     raise ValueError(t)
 
 
 def val_coq(v):
-    """python value tree (int | bool | list) -> Coq `value`"""
+    """python value tree (int | bool | list | bytes) -> Coq `value`"""
+    if isinstance(v, (bytes, bytearray)):
+        return "(VBytes [" + "; ".join(str(b) for b in v) + "])"
     if isinstance(v, bool):
         return f"(VBool {'true' if v else 'false'})"
     if isinstance(v, int):
@@ -104,6 +114,8 @@ def val_vy(v, t):
     k = t[0]
     if k == "bool":
         return "True" if v else "False"
+    if k == "bytes":
+        return 'b"' + "".join(f"\\x{b:02x}" for b in v) + '"'
     if k == "int":
         return str(v)
     if k == "addr":
@@ -225,6 +237,10 @@ def e_vy(e):
         return "[" + ", ".join(e_vy(x) for x in e.elems) + "]"
     if k == "pop":
         return f"{base_vy(e.base)}{path_vy(e.path)}.pop()"
+    if k == "concat":
+        return f"concat({e_vy(e.a)}, {e_vy(e.b)})"
+    if k == "slice":
+        return f"slice({e_vy(e.a)}, {e_vy(e.start)}, {e_vy(e.ln)})"
     raise ValueError(k)
 
 
@@ -334,6 +350,10 @@ def e_coq(e):
         return "(EList [" + "; ".join(e_coq(x) for x in e.elems) + "])"
     if k == "pop":
         return f"(EPop ({base_coq(e.base)}) {path_coq(e.path)})"
+    if k == "concat":
+        return f"(EConcat {e_coq(e.a)} {e_coq(e.b)})"
+    if k == "slice":
+        return f"(ESlice {e_coq(e.a)} {e_coq(e.start)} {e_coq(e.ln)})"
     raise ValueError(k)
 
 
